@@ -454,6 +454,18 @@ func (w *World) Gov(a Act) Outcome {
 	if o.Out == "ok" && herr != nil {
 		return Outcome{Out: "err", Log: herr.Error()}
 	}
+	if o.Out == "ok" && a.S("p") == "TokenInfos" {
+		// the harness's own view of the token list follows the governance decision
+		var toks []TokenCfg
+		for _, it := range a.L("tokens") {
+			bz, _ := json.Marshal(it)
+			var t TokenCfg
+			must(json.Unmarshal(bz, &t))
+			toks = append(toks, t)
+		}
+		w.Cfg.Tokens = toks
+		o.Aux = w.Aux()
+	}
 	return o
 }
 
